@@ -269,6 +269,8 @@ pub struct PipeState {
     pub outputs:        Mutex<Vec<u64>>,
     pub out_ended:      AtomicBool,
     pub consumer_parks: AtomicU32,
+    /// the consumer's latest poll returned Pending and it has not been given an output since
+    pub consumer_waiting: AtomicBool,
     pub pushed:         AtomicUsize,
     pub closed_stamp:   AtomicU64,
     pub mpsc_tx:        Mutex<Option<futures::channel::mpsc::UnboundedSender<OpId>>>,
@@ -1012,6 +1014,11 @@ pub fn run_firer(ctx: &Arc<RunCtx>, pusher: bool) {
             }
             FAct::Item(p) => crate::pipes::push_item(ctx, p),
             FAct::Close(p) => crate::pipes::close_input(ctx, p),
+            FAct::WaitConsumerWaiting(p) => {
+                let _b = ctx.blocked(crate::pipes::PIPE_BASE + p, PH_FIREWAIT);
+                // thread 0 creates the pipe and reads its output
+                while !ctx.pipes[p].consumer_waiting.load(ORD) && !ctx.pipes[p].out_ended.load(ORD) && ctx.pipes[p].stream_dropped.load(ORD) == 0 && ctx.done_mask.load(Ordering::SeqCst) & 1 == 0 { thread::park(); }
+            }
             FAct::WaitDropped(p) => {
                 let _b = ctx.blocked(crate::pipes::PIPE_BASE + p, PH_FIREWAIT);
                 while ctx.pipes[p].stream_dropped.load(ORD) == 0 && ctx.threads_done.load(Ordering::SeqCst) < ctx.prog.threads.len() { thread::park(); }
@@ -1030,7 +1037,7 @@ pub struct Handles {
 
 fn prog_has_waits(prog: &Program) -> bool {
     let t = |a: &TAct| matches!(a, TAct::WaitStart(_) | TAct::HandResumer(_));
-    let f = |a: &FAct| matches!(a, FAct::WaitRet(_) | FAct::WaitStart(_) | FAct::Resume(..) | FAct::WaitDropped(_));
+    let f = |a: &FAct| matches!(a, FAct::WaitRet(_) | FAct::WaitStart(_) | FAct::Resume(..) | FAct::WaitDropped(_) | FAct::WaitConsumerWaiting(_));
     prog.threads.iter().flatten().any(t) || prog.phases.iter().flat_map(|p| p.threads.iter().flatten()).any(t) || prog.fire.iter().any(f) || prog.pusher.iter().any(f)
 }
 
@@ -1049,7 +1056,7 @@ pub fn build(prog: Program, native: bool) -> Handles {
     let holds = (0..prog.n_holds).map(|_| Arc::new(Hold::new())).collect();
     let pipes = prog.pipes.iter().map(|pd| { let (tx, rx) = if pd.mpsc { let (tx, rx) = futures::channel::mpsc::unbounded(); (Some(tx), Some(rx)) } else { (None, None) }; PipeState {
         input: Mutex::new(InputCore { q: Default::default(), closed: false, waker: None, polls: 0, pending_polls: 0 }), input_drops: AtomicU32::new(0), closure_drops: AtomicU32::new(0),
-        created: AtomicU64::new(0), stream_dropped: AtomicU64::new(0), outputs: Mutex::new(vec![]), out_ended: AtomicBool::new(false), consumer_parks: AtomicU32::new(0),
+        created: AtomicU64::new(0), stream_dropped: AtomicU64::new(0), outputs: Mutex::new(vec![]), out_ended: AtomicBool::new(false), consumer_parks: AtomicU32::new(0), consumer_waiting: AtomicBool::new(false),
         pushed: AtomicUsize::new(0), closed_stamp: AtomicU64::new(0), mpsc_tx: Mutex::new(tx), mpsc_rx: Mutex::new(rx), push_lock: Mutex::new(()), drop_class: AtomicU32::new(0),
     } }).collect();
     let n = prog.ops.len();
